@@ -1,6 +1,7 @@
 import SwcVerif.Gen.AlgoShortTip
 import SwcVerif.Refine.Cut
 import SwcVerif.Refine.Node
+import SwcVerif.Refine.Subtree
 /-! Refinement for C06 (T23 `shorttip`): the definitions GENERATED from `swcgeom/transforms/tree.py::CutShortTipBranch._leave` and
 `__call__` (with the recording `lambda` it puts on the callback list) equal the model `Sub.cutShortTip` on every tree table, for every
 threshold and every list of (total, stateful) user callbacks; the user callbacks are called once per removed branch, in traversal order,
@@ -348,5 +349,72 @@ theorem cutShortTip_refines {σ : Type} [Inhabited σ] (pids : List Int) (r : Ro
   unfold leaveFn at hcall
   simp only [cut_short_tip, cut_short_tip.body, Py.seq, Py.bind, Py.skip, hcall, unwrapCb, hsub]
   cases toSubtree pids (tipRemoved elen thre r) <;> simp [Py.finish]
+
+/-! ## `to_subtree_impl`: every column gathered by the kept rows -/
+section impl
+variable {A Src Nm : Type} [Inhabited A] [Inhabited Src] [Inhabited Nm]
+
+/-- **`to_subtree_impl` as translated, on EVERY input** (failures included): it is `to_sub_topology` followed by the gather of every column
+through the returned mapping (a mapping entry outside a column raises); the `id` / `pid` columns of the result are the new ids / new
+parents, `source` and `names` are handed on, `out_mapping` (a list) is cleared and filled with the mapping, the input columns are returned
+as they were -/
+theorem toSubtreeImpl_eq (ids pids types : List Int) (xs : List A) (src : Src) (nm : Nm) (sub : List Int × List Int) (out0 : List Int) :
+    to_subtree_impl ids pids types xs src nm sub out0 =
+      (to_sub_topology sub).bind fun r => (Py.take ids r.2).bind fun _ => (Py.take pids r.2).bind fun _ =>
+        (Py.take types r.2).bind fun ty => (Py.take xs r.2).map fun x =>
+          (r.2, ids, pids, types, xs, (Py.len r.1.1, (r.1.1, r.1.2, ty, x), src, nm)) := by
+  simp only [to_subtree_impl, to_subtree_impl.body, Py.seq, Py.bind]
+  cases to_sub_topology sub with
+  | none => simp [Py.finish]
+  | some r =>
+    simp only [Option.bind_some]
+    cases Py.take ids r.2 <;> simp only [Option.bind_none, Option.bind_some, Py.finish, Option.map_none]
+    cases Py.take pids r.2 <;> simp only [Option.bind_none, Option.bind_some, Py.finish, Option.map_none]
+    cases Py.take types r.2 <;> simp only [Option.bind_none, Option.bind_some, Py.finish, Option.map_none]
+    cases Py.take xs r.2 <;> simp [Py.finish]
+
+/-- numpy fancy indexing `col[mapping]` with every index inside the column is the model's `takeRows` -/
+theorem take_inrange {α : Type} [Inhabited α] (col : List α) : ∀ (m : List Int), (∀ i ∈ m, 0 ≤ i ∧ i.toNat < col.length) →
+    Py.take col m = some (takeRows col m)
+  | [], _ => by simp [Py.take, takeRows]
+  | i :: m, h => by
+    have hi := h i List.mem_cons_self
+    have ih := take_inrange col m (fun j hj => h j (List.mem_cons_of_mem _ hj))
+    have e : Py.idx col i = some (col.getD i.toNat default) := by
+      obtain ⟨k, rfl⟩ := Int.eq_ofNat_of_zero_le hi.1
+      have hk : k < col.length := by simpa using hi.2
+      rw [idx_nat _ _ hk]
+      simp [List.getD_eq_getElem?_getD, List.getElem?_eq_getElem hk]
+    simp only [Py.take, takeRows, List.mapM_cons, e, List.map_cons] at ih ⊢
+    simp [ih]
+
+/-- **`to_subtree_impl` as translated IS compaction + attribute gather of the model**: for a marked topology `(subId, subPid)` over a tree
+whose columns all have `N` rows (kept ids distinct and inside the table), the result is the model's `toSubTopology` (`KeyError` exactly
+when the model fails): ids `0..k−1`, the model's new parents, EVERY further column the input column gathered at the kept rows in order
+(`takeRows`, characterised by `C06.attrs_preserved`), `out_mapping` = the new→old mapping, `source` / `names` handed on, and the input
+columns are unchanged -/
+theorem toSubtreeImpl_refines (N : Nat) (ids pids types : List Int) (xs : List A) (src : Src) (nm : Nm) (subId subPid out0 : List Int)
+    (h1 : ids.length = N) (h2 : pids.length = N) (h3 : types.length = N) (h4 : xs.length = N)
+    (hl : subId.length = subPid.length)
+    (hnd : (((List.zip subId subPid).filter (fun ip => !decide (ip.1 = -2))).map (·.1)).Nodup)
+    (hin : ∀ i ∈ subId, i ≠ REMOVAL → 0 ≤ i ∧ i.toNat < N) :
+    to_subtree_impl ids pids types xs src nm (subId, subPid) out0 =
+      (toSubTopology subId subPid).map fun r =>
+        (r.mapping, ids, pids, types, xs,
+          ((r.mapping.length : Int), (Py.range (r.mapping.length : Int), r.newPid, takeRows types r.mapping, takeRows xs r.mapping), src, nm)) := by
+  rw [toSubtreeImpl_eq, RefineSub.toSubTopology_refines subId subPid hl hnd]
+  cases hr : toSubTopology subId subPid with
+  | none => simp
+  | some r =>
+    have hm := (C06.toSubTopology_spec subId subPid hl r hr).1
+    have hmem : ∀ i ∈ r.mapping, 0 ≤ i ∧ i.toNat < N := by
+      intro i hi
+      rw [hm, List.mem_filter] at hi
+      exact hin i hi.1 (by simpa using hi.2)
+    simp only [Option.map_some, Option.bind_some]
+    rw [take_inrange ids r.mapping (by rw [h1]; exact hmem), take_inrange pids r.mapping (by rw [h2]; exact hmem),
+      take_inrange types r.mapping (by rw [h3]; exact hmem), take_inrange xs r.mapping (by rw [h4]; exact hmem)]
+    simp [Py.len, Py.range]
+end impl
 
 end RefineShortTip
